@@ -85,6 +85,10 @@ def gen_cases(ctx):
         z = [ctx.randf(-2, 2), ctx.randf(-2, 2)]; f = ctx.randf(-3, 3)
         mk("add", a=a, b=b); mk("sub", a=a, b=b); mk("mul_c", a=a, z=z); mk("c_mul", a=a, z=z); mk("mul_f", a=a, f=f); mk("f_mul", a=a, f=f)
         mk("sum", list=[sv(rng, n, "generic") for _ in range(rng.randrange(1, 6))])
+    # long sums (more than 64 states, counts that are not multiples of 64): every summand counts
+    for k in (65, 100, 130):
+        n = rng.randrange(1, 4)
+        mk("sum", list=[sv(rng, n, "generic") for _ in range(k)])
     mk("add", a=sv(rng, 2), b=sv(rng, 3)); mk("sub", a=sv(rng, 1), b=sv(rng, 2)); mk("sum", list=[]); mk("sum", list=[sv(rng, 1), sv(rng, 2)])
     return cases
 
